@@ -6,7 +6,7 @@ import re
 
 ID = "C03"
 PROPS = "Props/C03.v"
-GEN = ["sm2"]
+GEN = ["sm2", "sm2limbs"]
 COQ_TIMEOUT = 2400
 LEGS = [
     {"driver": "c03", "runner": ("ec", "Extract/ExtractEC.v", "Ec_model")},
@@ -212,7 +212,18 @@ def same(f, io, mo):
     if io[0] != "ok":
         return True          # same class (err / PANIC / HANG); nothing else is projected
     op = f[0]
-    if op in FE_OPS or op in PT_OPS:
+    if op in FE_OPS:
+        # model line: ok <represented value by the F_p-level model> <exact words by the limb-level model
+        # (Gen/P256Limbs.v, mechanically translated)>; the implementation printed its result words
+        if len(io) != 2 or len(mo) != 3:
+            return False
+        try:
+            return fe(io[1]) == int(mo[1], 16) and _limbs(io[1]) == _limbs(mo[2])
+        except ValueError:
+            return False
+    if op == "FT":
+        return len(io) == 2 and len(mo) == 3 and io[1] == mo[1] == mo[2]
+    if op in PT_OPS:
         if len(io) != len(mo):
             return False
         try:
